@@ -16,18 +16,30 @@ fn ident_coq(id: &[u8; 20], a: &SocketAddrV4) -> String {
     format!("({}, {}, {})", n_hex(id), u32::from(*a.ip()), a.port())
 }
 
-pub fn timeline_case(r: &mut Rng, n_peers: usize, minutes: u64, gap_ms: u64) -> String {
+#[derive(Clone, Copy)]
+enum Q {
+    Resp(usize),
+    Req(usize, bool),
+}
+
+pub fn timeline_case(r: &mut Rng, n_peers: usize, minutes: u64, gap_ms: u64, server_mode: bool, blackout: Option<(u64, u64)>) -> String {
     let t0 = 1000u64;
     simclock::set_ms(t0);
     tape_seed(r.next());
     let mut peers: Vec<Peer> = (0..n_peers).map(|i| Peer::new(peer_id(i, r))).collect();
-    let mut node = Manual::new(&[peers[0].addr], false, Default::default());
+    let mut node = Manual::new(&[peers[0].addr], server_mode, Default::default());
     let self_id = *node.actor.info().id().as_bytes();
     // identities: (id, address); a restart gives a peer a new identity at the same address
     let mut idents: Vec<([u8; 20], SocketAddrV4)> = peers.iter().map(|p| (p.id, p.addr)).collect();
     let mut cur: Vec<usize> = (0..n_peers).collect();
     let mut up: Vec<bool> = vec![true; n_peers];
-    let mut queue: VecDeque<usize> = VecDeque::new();
+    let mut queue: VecDeque<Q> = VecDeque::new();
+    // visitors: nodes that only ever send requests to this node (they bootstrap from it, say) and answer nothing
+    let visitors: Vec<Peer> = (0..2).map(|i| Peer::new(peer_id(200 + i, r))).collect();
+    for v in &visitors {
+        idents.push((v.id, v.addr));
+    }
+    let visitor_ident0 = n_peers;
     let mut now = t0;
     let end = t0 + minutes * 60_000;
     let mut ticks: Vec<String> = Vec::new();
@@ -44,8 +56,24 @@ pub fn timeline_case(r: &mut Rng, n_peers: usize, minutes: u64, gap_ms: u64) -> 
             };
             now += dt;
             simclock::set_ms(now);
+            // a scripted blackout: every peer is down from minute a to minute b, then all are back
+            let dark = match blackout {
+                Some((a, b)) => now >= t0 + a * 60_000 && now < t0 + b * 60_000,
+                None => false,
+            };
+            if let Some((_, b)) = blackout {
+                if dark {
+                    for u in up.iter_mut() {
+                        *u = false;
+                    }
+                } else if now >= t0 + b * 60_000 && now - dt < t0 + b * 60_000 {
+                    for u in up.iter_mut() {
+                        *u = true;
+                    }
+                }
+            }
             // roughly every 8 minutes something happens to some peer
-            if r.below(480_000) < dt.max(1) {
+            if !dark && r.below(480_000) < dt.max(1) {
                 let p = r.below(n_peers as u64) as usize;
                 if up[p] {
                     up[p] = false;
@@ -60,6 +88,17 @@ pub fn timeline_case(r: &mut Rng, n_peers: usize, minutes: u64, gap_ms: u64) -> 
                     cur[p] = idents.len() - 1;
                     up[p] = true;
                 }
+            }
+            // a visitor asks this node: find_node(own id) (read-only or not), or a ping
+            if r.below(if dark { 100_000 } else { 400_000 }) < dt.max(1) {
+                let v = r.below(visitors.len() as u64) as usize;
+                let ro = !dark && r.chance(1, 4);
+                let find = r.chance(3, 4);
+                let id = Id::from(visitors[v].id);
+                let rt = if find { RequestTypeSpecific::FindNode(FindNodeRequestArguments { target: id }) } else { RequestTypeSpecific::Ping };
+                let req = MessageType::Request(dht::RequestSpecific { requester_id: id, request_type: rt });
+                visitors[v].send(node.addr, 5_000_000 + ticks.len() as u32, req, ro, None);
+                queue.push_back(Q::Req(visitor_ident0 + v, find && !ro && server_mode));
             }
             // lookups at arbitrary instants
             if r.below(600_000) < dt.max(1) {
@@ -90,28 +129,44 @@ pub fn timeline_case(r: &mut Rng, n_peers: usize, minutes: u64, gap_ms: u64) -> 
             if up[inc.peer] {
                 if let Some(mt) = honest_reply(&peers[inc.peer], &inc, &listing) {
                     peers[inc.peer].send(inc.from, inc.msg.transaction_id, mt, false, None);
-                    queue.push_back(cur[inc.peer]);
+                    queue.push_back(Q::Resp(cur[inc.peer]));
+                }
+            }
+        }
+        // pings that reached the visitors (they never answer)
+        for v in &visitors {
+            for (raw, _) in v.drain() {
+                if let Ok(m) = decode(&raw) {
+                    if let MessageType::Request(q) = &m.message_type {
+                        if matches!(q.request_type, RequestTypeSpecific::Ping) && !pinged.contains(&v.addr) {
+                            pinged.push(v.addr);
+                        }
+                    }
                 }
             }
         }
         let snap = node.actor.verif_snapshot();
-        let table: Vec<String> = snap
-            .table
-            .iter()
-            .map(|n| match idents.iter().position(|(id, a)| id == n.id().as_bytes() && *a == n.address()) {
-                Some(i) => format!("{}%nat", i),
-                None => "9999%nat".to_string(),
-            })
-            .collect();
+        let dump = |ns: &Vec<Node>| -> Vec<String> {
+            ns.iter()
+                .map(|n| match idents.iter().position(|(id, a)| id == n.id().as_bytes() && *a == n.address()) {
+                    Some(i) => format!("{}%nat", i),
+                    None => "9999%nat".to_string(),
+                })
+                .collect()
+        };
+        let table = dump(&snap.table);
+        let signed = dump(&snap.signed_table);
         ticks.push(format!(
-            "{{| k_now := {}; k_resp := {}; k_pinged := [{}]; k_table := [{}]; k_boot_up := {} |}}",
+            "{{| k_now := {}; k_in := {}; k_pinged := [{}]; k_table := [{}]; k_signed := [{}]; k_boot_up := {} |}}",
             z(now as i128),
             match processed {
-                Some(i) => format!("(Some {}%nat)", i),
-                None => "None".into(),
+                Some(Q::Resp(i)) => format!("(KResp {}%nat)", i),
+                Some(Q::Req(i, c)) => format!("(KReq {}%nat {})", i, boolean(c)),
+                None => "KNone".into(),
             },
             pinged.iter().map(|a| format!("({}, {})", u32::from(*a.ip()), a.port())).collect::<Vec<_>>().join("; "),
             table.join(";"),
+            signed.join(";"),
             boolean(up[0])
         ));
     }
@@ -133,7 +188,15 @@ pub fn generate(seed: u64, scale: usize) -> Cases {
         let mut rr = r.fork();
         let n = 3 + (i % 4) * 2;
         let minutes = if i % 4 == 3 { 240 } else { 100 };
-        o.push("timeline", timeline_case(&mut rr, n, minutes, 90_000));
+        let server = i % 2 == 1;
+        o.push(if server { "timeline-server-node" } else { "timeline-client-node" }, timeline_case(&mut rr, n, minutes, 90_000, server, None));
+    }
+    for i in 0..(2 * scale) {
+        // everybody is unreachable for 25..40 minutes while other nodes keep asking this one, then all come back
+        let mut rr = r.fork();
+        let a = 10 + r.below(20);
+        let b = a + 25 + r.below(15);
+        o.push("timeline-blackout", timeline_case(&mut rr, 3 + i % 3, b + 30, 90_000, true, Some((a, b))));
     }
     o
 }
